@@ -584,6 +584,21 @@ class SpecEval(object):
                 var = n.args[0].value
                 lo = self.ev(n.args[1], e).t
                 hi = self.ev(n.args[2], e).t
+                clo, chi = const_int(lo), const_int(hi)
+                if clo is not None and chi is not None and chi - clo <= 8:
+                    # constant small range: expand instead of quantifying
+                    parts = []
+                    for kk in range(clo, chi):
+                        e3 = SpecEnv(e.st, dict(e.env), e.old, e.result, e.exc)
+                        e3.env[var] = VInt(kk)
+                        if e.old is not None:
+                            o3 = SpecEnv(e.old.st, dict(e.old.env), None, None)
+                            o3.env[var] = VInt(kk)
+                            e3.old = o3
+                        parts.append(self.as_bool(self.ev(n.args[3], e3), e3))
+                    if f == 'forall':
+                        return VBool(z3.And(parts) if parts else z3.BoolVal(True))
+                    return VBool(z3.Or(parts) if parts else z3.BoolVal(False))
                 iv = z3.Int(fresh_name(var))
                 e2 = SpecEnv(e.st, dict(e.env), e.old, e.result, e.exc)
                 e2.env[var] = VInt(iv)
